@@ -44,14 +44,40 @@ class TokenType(enum.Enum):
 class CTokenPrinter:
     """Printer that can turn a stream of token-lines into text"""
 
+    # Two characters which start another token when they are adjacent:
+    GLUE_PAIRS = {
+        "++", "--", "->", "<<", ">>", "<=", ">=", "==", "!=", "&&", "||",
+        "*=", "/=", "%=", "+=", "-=", "&=", "^=", "|=", "##", "..", "//",
+        "/*", "<:", ":>", "<%", "%>", "%:",
+    }  # fmt: skip
+
+    @classmethod
+    def must_separate(cls, previous, token):
+        """Test if the two tokens would be read differently when printed
+        next to each other, for example `-` and `-` from different macros."""
+        a, b = previous.val[-1:], token.val[:1]
+        if not a or not b:
+            return False
+        word_a = a.isalnum() or a == "_"
+        word_b = b.isalnum() or b == "_"
+        if word_a and (word_b or b in "\"'"):
+            return True
+        if previous.typ in ("NUMBER", "FLOAT") and b in ".+-":
+            return True
+        if a == "." and b.isdigit():
+            return True
+        return a + b in cls.GLUE_PAIRS
+
     def dump(self, tokens, file=None):
         first_line = True
+        previous = None
         for token in tokens:
             # print(token.typ, token.val, token.first)
             if isinstance(token, LineInfo):
                 # print(token, str(token))
                 print(str(token), file=file)
                 first_line = True
+                previous = None
             else:
                 if token.first:
                     # Insert newline!
@@ -60,4 +86,15 @@ class CTokenPrinter:
                     else:
                         print(file=file)
                 text = str(token)
+                if (
+                    previous is not None
+                    and not token.first
+                    and not token.space
+                    and self.must_separate(previous, token)
+                ):
+                    # Keep tokens apart which are brought together by macro
+                    # expansion.
+                    text = " " + text
+                if token.typ not in ("WS", "BOL"):
+                    previous = token
                 print(text, end="", file=file)
